@@ -6,6 +6,7 @@
    content(GC off) for every history" is decided by the twin-run oracle of the
    hist engine, not by a theorem (the stopper finding P4 refutes it for
    arrays/text in general). *)
+From YV Require Proofs.GCWitness.
 From YV Require Import Base.VV Crdt.RGAList Proto.Server Proofs.VVProofs Proofs.RGAProofs Proofs.ProtoProofs.
 
 Theorem C03_purge_view_invariant : forall g p,
@@ -25,3 +26,11 @@ Theorem C03_response_vector_is_minimum : forall s q s2 r m,
   m = min_vv (q_vv q :: map snd (s_vvrows s2)).
 Proof. exact push_pull_minvv. Qed.
 Print Assumptions C03_response_vector_is_minimum.
+
+(* the full statement is false of the faithful model: a purged tombstone changes where a later,
+   causally older insert lands (finding P4; the same witness diverges real replicas) *)
+Theorem C03_purged_stopper_refuted :
+  YV.Proofs.GCWitness.p4_without_purge = Some [100; 150; 250; 300]%Z /\
+  YV.Proofs.GCWitness.p4_with_purge = Some [100; 250; 150; 300]%Z.
+Proof. exact YV.Proofs.GCWitness.purged_stopper_changes_order. Qed.
+Print Assumptions C03_purged_stopper_refuted.
